@@ -30,3 +30,19 @@ check(
     "Trusted: TLC, Json, the table() projection and the Python mirror of the element pool (FBPools.tla). Pool: 4 options, 3 command options (with aliases), 6 arguments, 2 command names, 5 element lists. Order of option listings and repetition of aliased command options are A-clauses (DRIFT only).",
     "DESIGN.md#C06",
 )
+check(
+    "C01",
+    ["ArgsParser", "ArgsParserTrace"],
+    "TLA+ model of DefaultArgsParser (A: token loop, command-name re-alignment, validation, typed store) with the spelling relation and Intended() as P-layer; TLC enumerates every spelling/interleaving (RoundTrip invariant); every line replayed on the real parser; random formats/recipes decided by ArgsParserTrace.tla",
+    "TLC builds every well-formed recipe up to 3 (quick) / 4 (thorough) items - all option spellings, grouped shorts, options anywhere among names and positionals, names by name/alias/omitted, '--' tails - for 6 formats x strict/lenient and proves on the parser model that the result equals Intended(assignment); the real parser reproduces the model's result on every emitted line (formats with and without base), including access by position, short name and the dictionaries; simulated recipes up to 7 items and 700/15000 random formats (0-5 options, 0-4 arguments, 0-2 names) x random recipes are decided by TLC, which itself renders the recipe, decides WellFormed and computes Intended.",
+    "Trusted: TLC, Json, argslib projection (pv/project_args/build_format), the Python render() only produces tokens that TLC re-renders (H.recipe.render). What counts as a spelling is ArgsSpell.WellFormed (see assumptions in evidence). Types str/int/bool; float conversion outside.",
+    "DESIGN.md#C01",
+)
+check(
+    "C02",
+    ["ArgsParser", "ArgsParserTrace"],
+    "Same ArgsParser model; TLC enumerates all token lists up to MaxLen over an adversarial alphabet x 7 formats, strict then lenient on one parser object (invariants Allowed, LenientTotal, StrictOkImpliesLenientSame); every outcome replayed on the real parser; random soups decided by ArgsParserTrace.tla",
+    "Exhaustive within bounds: all 16 276 (quick, length <= 3) / 406 901 (thorough, length <= 4) token lists over 25 adversarial tokens x 7 formats x 2 modes are parsed by the model, TLC checking that only documented errors occur, lenient never raises a parse error and agrees with strict whenever strict succeeds; the real parser reproduces the model's outcome (error class and full result) on every one, with and without a base format; random soups up to length 6 are decided by TLC with all P-clauses on the observed outcomes of both modes.",
+    "Trusted: TLC, Json, argslib. Formats <= 1 command name, <= 2 arguments, <= 2 options. The exact error class for arbitrary soup is an A-clause (DRIFT), only membership in the documented set is a P-clause; single-fault mutations with a fixed expected class are validated in the thorough tier.",
+    "DESIGN.md#C02",
+)
